@@ -298,7 +298,7 @@ pub fn check_advertising(t: &Torrent, o: &Outcome, stats: &mut HashMap<&'static 
         }
         let undelivered: Vec<usize> = want[p.min(want.len())..].iter().copied().filter(|i| !peer_has[*i]).collect();
         // completeness at the end: peer's last choke-state message to us is Unchoke (sent > 1 s before the end)
-        if !closed && sent_bf.is_some() {
+        if !closed && init.is_some() {
             let last_state = conn_events.iter().rev().find_map(|e| match &e.kind { EvKind::PeerSent { msg: Some(Msg::Unchoke), .. } => Some((true, e.ms)), EvKind::PeerSent { msg: Some(Msg::Choke), .. } => Some((false, e.ms)), _ => None });
             let last_comp_ms = comps.last().map(|c| o.events.iter().find(|e| e.seq == c.0).map(|e| e.ms).unwrap_or(0)).unwrap_or(0);
             if let Some((true, ms)) = last_state {
